@@ -271,6 +271,12 @@ impl DiskIO {
                 .setup_sqpoll(IOURING_SQPOLL_IDLE_MS)
                 .build(IOURING_QUEUE_SIZE)
                 .ok();
+            #[cfg(feoxdb_verif)]
+            let ring = if crate::verif::dev::force_sync_path() {
+                None
+            } else {
+                ring
+            };
 
             if let Some(ref r) = ring {
                 let mut probe = Probe::new();
@@ -440,6 +446,10 @@ impl DiskIO {
     pub fn write_sectors_sync(&self, sector: u64, data: &[u8]) -> Result<()> {
         self.ensure_writable()?;
         let offset = sector * FEOX_BLOCK_SIZE as u64;
+        #[cfg(all(feoxdb_verif, unix))]
+        if crate::verif::dev::before_write(self.fd, offset, data, false) {
+            return Err(FeoxError::IoError(crate::verif::dev::injected()));
+        }
 
         #[cfg(unix)]
         {
@@ -520,15 +530,37 @@ impl DiskIO {
             }
         }
 
+        #[cfg(all(feoxdb_verif, unix))]
+        if crate::verif::dev::after_write() {
+            return Err(FeoxError::IoError(crate::verif::dev::injected()));
+        }
+
         Ok(())
     }
 
     pub fn flush(&self) -> Result<()> {
         self.ensure_writable()?;
+        #[cfg(all(feoxdb_verif, unix))]
+        let verif_decision = crate::verif::dev::before_fsync(self.fd);
+        #[cfg(all(feoxdb_verif, unix))]
+        if verif_decision == crate::verif::dev::Decision::FailBefore {
+            crate::verif::dev::after_fsync(self.fd, false);
+            return Err(FeoxError::IoError(crate::verif::dev::injected()));
+        }
         #[cfg(unix)]
         unsafe {
             if libc::fsync(self.fd) == -1 {
+                #[cfg(feoxdb_verif)]
+                crate::verif::dev::after_fsync(self.fd, false);
                 return Err(FeoxError::IoError(io::Error::last_os_error()));
+            }
+        }
+        #[cfg(all(feoxdb_verif, unix))]
+        {
+            let failed = verif_decision == crate::verif::dev::Decision::FailAfter;
+            crate::verif::dev::after_fsync(self.fd, !failed);
+            if failed {
+                return Err(FeoxError::IoError(crate::verif::dev::injected()));
             }
         }
 
@@ -784,6 +816,17 @@ impl DiskIO {
                 } else {
                     buffers.push(PendingWriteBuffer::Shared(data.retain_for_write()));
                 }
+            }
+
+            #[cfg(feoxdb_verif)]
+            for (sector, data) in chunk {
+                let _ = crate::verif::dev::before_write(
+                    self.fd,
+                    sector * FEOX_BLOCK_SIZE as u64,
+                    data.as_slice(),
+                    true,
+                );
+                let _ = crate::verif::dev::after_write();
             }
 
             let user_data_base = self.next_user_data;
